@@ -1,5 +1,6 @@
 (* Props/C19.v -- property C19: saving reports sink failures and ignores sink chunking.
-   Statements only; proofs live in Proofs/SinkProofs.v, Proofs/SaveStateProofs.v, Proofs/SinkSaveProofs.v.
+   Statements only; proofs live in Proofs/SinkProofs.v, Proofs/SaveStateProofs.v, Proofs/SinkSaveProofs.v,
+   Proofs/SinkBufProofs.v.
 
    Reading guide.  [calls] is the list of buffers the save path hands to write_all, one after the
    other, each followed by `?` -- ANY list: the theorems do not depend on how the output is cut into
@@ -7,8 +8,8 @@
    script is used up); [run write_all calls s] = (result, bytes the sink holds, CountingWrite.bytes_written).
    [run qwrite_all] is the same for sinks whose answers are attached to stream positions (what the
    harness drives the real save_to with). *)
-From LV Require Import Base.Bytes Model.Obj Model.Sink Model.SaveState
-  Proofs.SinkProofs Proofs.SaveStateProofs Proofs.SinkSaveProofs.
+From LV Require Import Base.Bytes Model.Obj Model.Sink Model.SaveState Model.SinkBuf
+  Proofs.SinkProofs Proofs.SaveStateProofs Proofs.SinkSaveProofs Proofs.SinkBufProofs.
 From LV Require Model.Save.
 
 Local Open Scope N_scope.
@@ -164,6 +165,90 @@ Theorem C19_save_state_agrees :
     state_of (Save.so_doc (Save.save Save.XTable d)) = mutate_table (state_of d).
 Proof. exact save_table_state. Qed.
 
+(* (8) Document::save(path) / IncrementalDocument::save(path) = File::create(path)?, save_internal into a
+   BufWriter of capacity [cap] (std: 8192), `into_inner()?` (Model/SinkBuf.v).  [save_path wa cap calls create s]
+   = (result, content of the file afterwards, unused rest of the file's script); create = None: the file
+   was created and answers by script s.
+   For EVERY capacity, EVERY list of write_all buffers and EVERY script: with [asked] the answers the
+   file gave during the whole of `save` -- the flushes inside save_internal, the write-through of large
+   buffers, the final flush of into_inner and Drop's unchecked flush on the error paths --
+     * the file holds a prefix of the complete output;
+     * Ok is returned if and only if none of the answers was a failure (hard error or Ok(0)): a failure
+       of ANY underlying write, the final flush included, yields Err;
+     * Ok only if every byte reached the file;
+     * the error returned is that of the first failure. *)
+Theorem C19_save_path_ok_iff_complete :
+  forall cap calls s r file s',
+    save_path write_all cap calls None s = (r, file, s') ->
+    exists asked rest, s = asked ++ s' /\ concat calls = file ++ rest /\
+      (r = WOk <-> no_hard asked) /\
+      (r = WOk -> rest = []) /\
+      (forall e, r = WErr e -> exists sf h tail, asked = sf ++ h :: tail /\ no_hard sf /\ hard_kind h = Some e).
+Proof. exact save_path_ok_iff_complete. Qed.
+
+(* the byte half holds for every reading of the device that is sound per call (both, by C19_sinks_sound),
+   in particular for the positional one the harness' real files follow *)
+Theorem C19_save_path_never_ok_with_missing_bytes :
+  forall wa, wa_sound wa -> forall cap calls s r file s',
+    save_path wa cap calls None s = (r, file, s') ->
+    exists rest, concat calls = file ++ rest /\ (r = WOk -> rest = []).
+Proof. exact save_path_sound. Qed.
+
+Theorem C19_save_path_failure_is_error :
+  forall cap calls sf h tail e, no_hard sf -> hard_kind h = Some e ->
+    let '(r, file, _) := save_path write_all cap calls None (sf ++ h :: tail) in
+    (r = WOk /\ file = concat calls) \/
+    (r = WErr e /\ file = firstn (length file) (concat calls)).
+Proof. exact save_path_failure_is_error. Qed.
+
+(* a device whose first answer already is a failure (/dev/full): a non-empty output is never saved
+   with result Ok, whether it fits into the buffer (the failure is then seen by into_inner's flush
+   only) or not *)
+Theorem C19_save_path_full_device :
+  forall cap calls h tail e, hard_kind h = Some e -> concat calls <> [] ->
+    fst (fst (save_path write_all cap calls None (h :: tail))) = WErr e.
+Proof. exact save_path_full_device. Qed.
+
+(* File::create(path)? : the error is returned, nothing is written, the device is not touched *)
+Theorem C19_save_path_create_fails :
+  forall wa cap calls e s, save_path wa cap calls (Some e) s = (WErr e, [], s).
+Proof. exact save_path_create_fails. Qed.
+
+(* IncrementalDocument::save(path): the previous bytes are the first write_all into the BufWriter *)
+Theorem C19_save_path_incremental :
+  forall cap prev calls s r file s',
+    save_path_inc write_all cap prev calls None s = (r, file, s') ->
+    exists asked rest, s = asked ++ s' /\ prev ++ concat calls = file ++ rest /\
+      (r = WOk <-> no_hard asked) /\ (r = WOk -> rest = []).
+Proof.
+  intros cap prev calls s r file s' H. unfold save_path_inc in H.
+  destruct (save_path_ok_iff_complete _ _ _ _ _ _ H) as [asked [rest [H1 [H2 [H3 [H4 _]]]]]].
+  exists asked, rest. auto.
+Qed.
+
+(* what save(path) leaves in the document: untouched (and then the result is an error) or exactly the
+   mutation of a successful save -- so (6) C19_resave_table / C19_resave_stream_partial apply *)
+Theorem C19_save_path_residue :
+  forall wa cap mode ids pre post st s r file st',
+    save_path_with wa cap mode ids pre post st None s = (r, file, st') ->
+    (st' = st /\ r <> WOk) \/ st' = mutate mode ids st.
+Proof. exact save_path_with_residue. Qed.
+
+(* non-vacuity, and separation: the same device, the same output -- `into_inner()?` reports the
+   failed final flush, a BufWriter that is merely dropped returns Ok for an empty file *)
+Theorem C19_example_save_path :
+  save_path write_all 8 ex_path_calls None [Accept 3; Interrupted; Accept 100; Accept 2] = (WOk, concat ex_path_calls, []) /\
+  save_path write_all DEFAULT_BUF_SIZE ex_path_calls None [Fail EStorageFull; Fail EStorageFull; Fail EStorageFull]
+    = (WErr EStorageFull, [], [Fail EStorageFull]) /\
+  save_path qwrite_all 8 ex_path_calls None [Accept 12; Fail EStorageFull; Fail EStorageFull; Fail EStorageFull]
+    = (WErr EStorageFull, bs "%PDF-1.5" ++ [x0a] ++ bs "1 0", [Fail EStorageFull]).
+Proof. split; [exact ex_path_ok | split; [exact ex_path_final_flush_fails | exact ex_path_positional]]. Qed.
+
+Theorem C19_example_dropped_bufwriter_refuted :
+  save_path_dropped write_all DEFAULT_BUF_SIZE ex_path_calls [Fail EStorageFull; Fail EStorageFull; Fail EStorageFull]
+    = (WOk, [], [Fail EStorageFull; Fail EStorageFull]) /\ concat ex_path_calls <> [].
+Proof. exact dropped_bufwriter_breaks. Qed.
+
 (* non-vacuity *)
 Theorem C19_example_soft :
   no_hard ex_soft /\
@@ -205,6 +290,15 @@ Print Assumptions C19_resave_stream_partial.
 Print Assumptions C19_save_chunking_irrelevant.
 Print Assumptions C19_save_failure_at_position.
 Print Assumptions C19_save_state_agrees.
+Print Assumptions C19_save_path_ok_iff_complete.
+Print Assumptions C19_save_path_never_ok_with_missing_bytes.
+Print Assumptions C19_save_path_failure_is_error.
+Print Assumptions C19_save_path_full_device.
+Print Assumptions C19_save_path_create_fails.
+Print Assumptions C19_save_path_incremental.
+Print Assumptions C19_save_path_residue.
+Print Assumptions C19_example_save_path.
+Print Assumptions C19_example_dropped_bufwriter_refuted.
 Print Assumptions C19_example_soft.
 Print Assumptions C19_example_failure.
 Print Assumptions C19_example_counter.
